@@ -1,8 +1,11 @@
 """C11 — cholesky and plu return structured factors that reproduce the operator.
 
-Streams: positive-definite operator trees (cholesky) and non-singular operator trees (plu) over Dense, Identity,
-Diagonal, ScalarMul, Kronecker (2-3 factors of unequal size), BlockDiag with multiplicities, declaration wrappers and
-nestings, real and complex, single and double precision.  For every case three things are compared:
+Streams: positive-definite operator trees (cholesky AND plu: plu of a positive-definite tree is part of the property
+too) and non-singular operator trees (plu) over Dense, Identity, Diagonal, ScalarMul, Kronecker (2-3 factors of
+unequal size), BlockDiag with multiplicities, declaration wrappers (PSD / SelfAdjoint on Hermitian (positive-definite)
+dense leaves and fallback nodes, PSD on positive-definite composites, PSD / SelfAdjoint / Unitary on Identity) and
+nestings, real and complex (complex Hermitian leaves carry non-real off-diagonal entries), single and double precision.
+For every case three things are compared:
 
   real  cola.linalg.decompositions.decompositions.cholesky / plu, in process
   code  Lean code model (Op.cholRule / Op.pluRule at the exact Gaussian-rational parameters GDecomp.params)
@@ -10,12 +13,19 @@ nestings, real and complex, single and double precision.  For every case three t
 
 real vs code: error class, kind trees with annotations (treecheck.skel), kind trees with sizes / multiplicities /
 lower flags, dtypes, shapes, and the factor MATRICES wherever they are determined by the input (Cholesky factors are
-unique; PLU factors of trees without a dense leaf are (I, I, A) factor by factor).  Dense PLU leaves are
-compared through the defining properties only (the model's pivot order need not be LAPACK's).
+unique; PLU factors of trees without a dense leaf are (I, I, A) factor by factor; PLU factors of trees WITH dense
+leaves are unique as soon as the permutation is fixed (both sides return a unit lower-triangular L), so L and U are
+compared whenever the real P equals the model's P exactly).  Otherwise dense PLU leaves are compared through the
+defining properties only (the model's pivot order need not be LAPACK's).
 real vs spec: L lower / U upper triangular (exact zeros), P a permutation matrix (exact 0/1), products against `den A`
-(exactly for real-dtype trees without dense leaves, else relative tolerance 1e-9 double / 2e-4 single), kind tree of
-every factor = the tree promised for the input (`Op.promisedSkel`), no dense array in factors of structured inputs.
+AND against the nominal matrix computed by numpy from the case (np.kron / block-diagonal assembly; the driver's `den A`
+must equal it exactly), exactly for real-dtype trees without dense leaves, else relative tolerance 1e-9 double /
+2e-4 single; kind tree of every factor = the tree promised for the input (`Op.promisedSkel`), no dense array in
+factors of structured inputs.
 code vs spec: computed exactly by the driver.
+When the real code differs from the code model but still meets the specification, a neighbourhood of the case (dense
+leaves replaced by complex Hermitian positive-definite payloads with non-real off-diagonals, un-annotated / PSD /
+SelfAdjoint, both calls) is searched for an input on which the real code contradicts the specification.
 """
 import collections
 import json
@@ -42,8 +52,11 @@ DRIVER = "DriverC11.lean"
 PROVISIONAL_KNOWN = {}
 
 TOL = {"double": 1e-9, "single": 2e-4}
-MAX_REPORTS = 5      # VIOLATION lines (with replay files) per run; further failing inputs are counted in the evidence
+MAX_REPORTS = 5      # VIOLATION lines with a concrete failing input (replay files) per run; further ones are counted in the evidence
+MAX_NOINPUT = 2      # VIOLATION lines `no-failing-input-found` per run (real differs from the code model, specification still met)
 MAX_SHRINKS = 2      # failing inputs that are shrunk (each round re-runs the Lean driver)
+OBS = collections.Counter()   # how the factor matrices of plu cases with dense leaves were compared (evidence)
+MAX_NEIGH = 3        # neighbourhood searches for a failing input around cases where real differs from the code model
 
 
 # ------------------------------------------------------------------------------------------ exact payloads
@@ -85,12 +98,14 @@ SQUARES = [Fraction(k, d) ** 2 for k in (1, 2, 3, 4, 5) for d in (1, 2)]        
 
 
 class TreeGen:
-    """positive-definite (call = chol) / non-singular (call = plu) trees of exact size n"""
+    """positive-definite (pd: always for call = chol, on request for call = plu) / non-singular (call = plu) trees of
+    exact size n.  Declarations are TRUE: PSD only on positive-definite nodes, SelfAdjoint only on Hermitian ones."""
 
-    def __init__(self, rng, call, max_dim):
+    def __init__(self, rng, call, max_dim, pd=None):
         self.rng = rng
         self.call = call
         self.max_dim = max_dim
+        self.pd = (call == "chol") if pd is None else (pd or call == "chol")
 
     def dtype(self, cplx):
         return self.rng.choice(["c64", "c128", "c128"]) if cplx else self.rng.choice(["f32", "f64", "f64"])
@@ -103,7 +118,7 @@ class TreeGen:
         """cholesky: a perfect-square dyadic (exact principal root); plu: any non-zero exact entry, negative and
         (under a complex dtype) non-real ones included — negative reals under a real dtype used to give NaN factors"""
         rng = self.rng
-        if self.call == "chol":
+        if self.pd:
             return jz(self.pos_square())
         while True:
             a = Fraction(rng.randint(-5, 5), rng.choice([1, 1, 2, 4]))
@@ -112,7 +127,10 @@ class TreeGen:
                 return jz(a, b)
 
     def dense_pd(self, n, cplx, dt):
+        """A = L0 L0^H, L0 lower triangular with small Gaussian-integer entries and positive diagonal: exactly Hermitian
+        positive definite with exact Cholesky factor L0; complex ones mostly with NON-REAL off-diagonal entries"""
         rng = self.rng
+        want_nonreal = cplx and n >= 2 and rng.random() < 0.85
         for _ in range(200):
             L0 = [[0] * n for _ in range(n)]
             for i in range(n):
@@ -121,6 +139,8 @@ class TreeGen:
                 L0[i][i] = complex(rng.choice([1, 1, 2, 2, 3]), 0)
             L0 = np.array(L0, dtype=np.complex128).reshape(n, n)
             A = L0 @ L0.conj().T
+            if want_nonreal and not np.any(A.imag != 0):
+                continue
             if np.linalg.cond(A) <= (60 if dt in ("f32", "c64") else 400):
                 return [[jz(int(round(z.real)), int(round(z.imag))) for z in row] for row in A]
         return [[(1 if i == j else 0) for j in range(n)] for i in range(n)]
@@ -134,13 +154,37 @@ class TreeGen:
                 return [[jz(int(z.real), int(z.imag)) for z in row] for row in M]
         return [[(1 if i == j else 0) for j in range(n)] for i in range(n)]
 
+    def dense_herm(self, n, cplx, dt):
+        """Hermitian, non-singular, in general indefinite: M + M^H"""
+        rng = self.rng
+        for _ in range(200):
+            M = np.array([[complex(rng.randint(-2, 2), rng.randint(-2, 2) if cplx and rng.random() < 0.7 else 0)
+                           for _ in range(n)] for _ in range(n)], dtype=np.complex128).reshape(n, n)
+            H = M + M.conj().T
+            if np.linalg.matrix_rank(H) == n and np.linalg.cond(H) <= (30 if dt in ("f32", "c64") else 200):
+                return [[jz(int(z.real), int(z.imag)) for z in row] for row in H]
+        return [[(1 if i == j else 0) for j in range(n)] for i in range(n)]
+
+    def declare(self, e, choices):
+        a = self.rng.choice(choices)
+        return e if a is None else ["ann", a, e]
+
     def leaf(self, n, cplx):
         rng = self.rng
         dt = self.dtype(cplx)
-        k = rng.choice(["dense", "dense", "diag", "diag", "scalar", "eye"] + (["other"] if n >= 2 else []))
+        if self.pd:
+            pool = ["dense", "dense", "dense", "diag", "diag", "scalar", "eye"]
+        else:
+            # plu of a general tree: also Hermitian (indefinite) and Hermitian positive-definite dense members
+            pool = ["dense", "dense", "dense", "diag", "diag", "scalar", "eye", "herm", "hpd"]
+        k = rng.choice(pool + (["other"] if n >= 2 else []))
+        if k == "hpd" or (k == "dense" and self.pd):
+            # cola.PSD(A) / cola.SelfAdjoint(A): true declarations, must not change any factor
+            return self.declare(["dense", dt, n, n, self.dense_pd(n, cplx, dt)], [None, None, "PSD", "PSD", "SelfAdjoint"])
+        if k == "herm":
+            return self.declare(["dense", dt, n, n, self.dense_herm(n, cplx, dt)], [None, "SelfAdjoint"])
         if k == "dense":
-            m = self.dense_pd(n, cplx, dt) if self.call == "chol" else self.dense_ns(n, cplx, dt)
-            return ["dense", dt, n, n, m]
+            return ["dense", dt, n, n, self.dense_ns(n, cplx, dt)]
         if k == "diag":
             return ["diag", dt, [self.root_entry(cplx) for _ in range(n)]]
         if k == "scalar":
@@ -155,7 +199,7 @@ class TreeGen:
     def other(self, n, cplx, dt):
         """classes without a structural rule (dense fallback): Product, Sum, Transpose, Triangular"""
         rng = self.rng
-        if self.call == "chol":
+        if self.pd:
             # Product(Dense(L0), Dense(L0^H)) with L0 lower triangular: positive definite, exact factor L0
             L0 = [[0] * n for _ in range(n)]
             for i in range(n):
@@ -165,7 +209,7 @@ class TreeGen:
             L0 = [[(v if isinstance(v, tuple) else (0, 0)) for v in row] for row in L0]
             a = [[jz(v[0], v[1]) for v in row] for row in L0]
             b = [[jz(L0[j][i][0], -L0[j][i][1]) for j in range(n)] for i in range(n)]
-            return ["prod", ["dense", dt, n, n, a], ["dense", dt, n, n, b]]
+            return self.declare(["prod", ["dense", dt, n, n, a], ["dense", dt, n, n, b]], [None, None, None, "PSD", "SelfAdjoint"])
         k = rng.choice(["T", "tri", "prod", "sum"])
         m = self.dense_ns(n, cplx, dt)
         if k == "T":
@@ -233,7 +277,7 @@ class TreeGen:
                 parts.append((rest, 1))
             e = ["bdiag", [self.tree(s, depth - 1, cplx if i else sub_c) for i, (s, _) in enumerate(parts)],
                  [mlt for (_, mlt) in parts]]
-        if self.call == "chol" and rng.random() < 0.15:
+        if self.pd and rng.random() < 0.15:
             e = ["ann", "PSD", e]                         # cola.PSD(A): a true declaration, does not change the rule
         return e
 
@@ -285,6 +329,103 @@ def has_dense_leaf(e):
             return any(go(k) for k in x[1])
         return t not in ("eye", "diag", "scalar")
     return go(e)
+
+
+def nominal(e):
+    """the matrix the case denotes, assembled by numpy (complex128; every payload is a small dyadic Gaussian rational, so
+    all sums and products below are exact) — a second, driver-independent reading of the specification `den A`.
+    None for node kinds this file does not generate."""
+    t = e[0]
+    if t == "ann" or t == "generic":
+        return nominal(e[2] if t == "ann" else e[1])
+    if t in ("dense", "tri"):
+        # Triangular is a Dense whose array is stored as given (`den` of a tri node is its array)
+        return np.array([[zc(v) for v in row] for row in e[-1]], dtype=np.complex128).reshape(e[2], e[3])
+    if t == "diag":
+        return np.diag(np.array([zc(v) for v in e[2]], dtype=np.complex128))
+    if t == "scalar":
+        return zc(e[2]) * np.eye(e[3], dtype=np.complex128)
+    if t == "eye":
+        return np.eye(e[2], dtype=np.complex128)
+    if t in ("T", "H"):
+        M = nominal(e[1])
+        return None if M is None else (M.T if t == "T" else M.conj().T)
+    if t in ("kron", "prod", "sum"):
+        Ms = [nominal(k) for k in e[1:]]
+        if any(M is None for M in Ms):
+            return None
+        out = Ms[0]
+        for M in Ms[1:]:
+            out = np.kron(out, M) if t == "kron" else (out @ M if t == "prod" else out + M)
+        return out
+    if t == "bdiag":
+        Ms = [nominal(k) for k in e[1]]
+        if any(M is None for M in Ms):
+            return None
+        blocks = [M for M, mlt in zip(Ms, e[2]) for _ in range(mlt)]
+        n, m = sum(b.shape[0] for b in blocks), sum(b.shape[1] for b in blocks)
+        out = np.zeros((n, m), dtype=np.complex128)
+        i = j = 0
+        for b in blocks:
+            out[i:i + b.shape[0], j:j + b.shape[1]] = b
+            i, j = i + b.shape[0], j + b.shape[1]
+        return out
+    return None
+
+
+def hermitian_leaves(e):
+    """-> list of tags 'declaration|hpd or herm|nonreal or real-valued|position' of the Hermitian dense leaves (size >= 2) of
+    the tree; position = root, kron, bdiag (multiplicity 1), bdiag-mult (multiplicity >= 2) of the nearest composite"""
+    out = []
+
+    def go(x, ann, pos):
+        t = x[0]
+        if t == "ann":
+            go(x[2], x[1], pos)
+        elif t == "kron":
+            for k in x[1:]:
+                go(k, None, "kron")
+        elif t == "bdiag":
+            for k, mlt in zip(x[1], x[2]):
+                go(k, None, "bdiag-mult" if mlt >= 2 else "bdiag")
+        elif t == "dense" and x[2] == x[3] and x[2] >= 2:
+            M = nominal(x)
+            if np.array_equal(M, M.conj().T):
+                pdef = bool(np.linalg.eigvalsh(M).min() > 1e-9)
+                nonreal = x[1] in ("c64", "c128") and bool(np.any(M.imag != 0))
+                out.append(f"{ann or 'plain'}|{'hpd' if pdef else 'herm'}|{'nonreal' if nonreal else 'real-valued'}|{pos}")
+    go(e, None, "root")
+    return out
+
+
+def neighbours(case):
+    """variants of a case for the failing-input search: every dense leaf of size >= 2 replaced by a complex Hermitian
+    positive-definite payload with non-real off-diagonals (well conditioned, exact: L0 L0^H), un-annotated / PSD /
+    SelfAdjoint (all true declarations); positive-definite trees under both calls, others under plu only"""
+    out, seen = [], {common.canon([case["call"], case["op"]])}
+    for k, ann in enumerate([None, "PSD", "SelfAdjoint"]):
+        G = TreeGen(random.Random(977 + k), "chol", 0)
+
+        def go(x):
+            t = x[0]
+            if t == "ann":
+                return go(x[2]) if x[2][0] == "dense" else ["ann", x[1], go(x[2])]
+            if t == "kron":
+                return ["kron"] + [go(y) for y in x[1:]]
+            if t == "bdiag":
+                return ["bdiag", [go(y) for y in x[1]], x[2]]
+            if t == "dense" and x[2] == x[3] and x[2] >= 2:
+                dt = "c64" if x[1] in ("f32", "c64") else "c128"
+                leaf = ["dense", dt, x[2], x[2], G.dense_pd(x[2], True, dt)]
+                return leaf if ann is None else ["ann", ann, leaf]
+            return x
+        op = go(case["op"])
+        for call in (("chol", "plu") if (case.get("pd") or case["call"] == "chol") else ("plu",)):
+            key = common.canon([call, op])
+            if key not in seen:
+                seen.add(key)
+                out.append({"call": call, "op": op, "pd": bool(case.get("pd") or case["call"] == "chol")})
+    return out
 
 
 # ------------------------------------------------------------------------------------------ real side
@@ -379,6 +520,7 @@ def is_perm_matrix(P):
 def real_vs_spec(case, ans, real):
     """-> dict of the defining properties evaluated on the REAL factors against the driver's `den A`"""
     A = ans_mat(ans["den"])
+    N = nominal(case["op"])
     n = ans["rows"]
     tol = TOL[precision(case["op"])]
     exact = (not has_dense_leaf(case["op"])) and (not is_complex_tree(case["op"]))
@@ -391,12 +533,16 @@ def real_vs_spec(case, ans, real):
         L = D[0]
         out["lower"] = bool(np.all(np.triu(L, 1) == 0))
         out["product"] = close(L @ L.conj().T, A, tol, exact)
+        if N is not None:
+            out["product_nominal"] = close(L @ L.conj().T, N, tol, exact)
     else:
         P, L, U = D
         out["perm"] = is_perm_matrix(P)
         out["lower"] = bool(np.all(np.triu(L, 1) == 0))
         out["upper"] = bool(np.all(np.tril(U, -1) == 0))
         out["product"] = close(P @ L @ U, A, tol, exact)
+        if N is not None:
+            out["product_nominal"] = close(P @ L @ U, N, tol, exact)
     out["structure"] = len(fs) == len(ans["promised"]) and all(structure_kept(p, f["kinds"]) for p, f in zip(ans["promised"], fs))
     out["denseFree"] = (not ans["structOnly"]) or all(f["dense_free"] for f in fs)
     return out
@@ -417,6 +563,14 @@ def real_vs_code(case, ans, real):
         return False, "nan"
     tol = TOL[precision(case["op"])]
     unique = case["call"] == "chol" or not has_dense_leaf(case["op"])
+    if not unique and len(real["factors"]) == 3 and len(code["factors"]) == 3:
+        # a non-singular A has exactly one factorisation A = P L U with a GIVEN permutation P, L unit lower and U upper
+        # triangular; scipy.linalg.lu and the model's LU both return a unit lower L, so the factors must agree as soon as
+        # the permutations do (pivot orders may differ on ties, then only the defining properties are compared)
+        Pr, Pc = real["factors"][0]["dense"], ans_mat(code["factors"][0]["den"])
+        unique = Pr.shape == Pc.shape and bool(np.array_equal(Pr.astype(np.complex128), Pc))
+        OBS["same permutation as the model: L and U compared with the model's" if unique else
+            "other pivot order than the model: defining properties only"] += 1
     exact = (not has_dense_leaf(case["op"])) and (not is_complex_tree(case["op"]))
     for i, (fr_, fc) in enumerate(zip(real["factors"], code["factors"])):
         for k in ("skel", "kinds", "dtype", "rows", "cols"):
@@ -433,6 +587,9 @@ def classify(case, ans, real):
         return "driver-error", ans["error"], None
     if not ans.get("wf", True) or ans["rows"] != ans["cols"]:
         return "skipped", "not a square well-formed operator", None
+    N = nominal(case["op"])
+    if N is not None and not (N.shape == (ans["rows"], ans["cols"]) and np.array_equal(ans_mat(ans["den"]).reshape(N.shape), N)):
+        return "spec-mismatch", "the driver's den A differs from the matrix numpy assembles from the case", None
     code = ans["code"]
     if not code["ok"] and code["err"] in ("inexact", "model-lu-failed", "not-square", "model:complex-payload-under-real-dtype"):
         return "skipped", "outside the exact model: " + code["err"], None
@@ -520,16 +677,24 @@ def gen_cases(ctx, rng, n_cases):
     cases = []
     max_dim = 24 if not ctx.thorough else 36
     for i in range(n_cases):
-        call = "chol" if i % 2 == 0 else "plu"
-        G = TreeGen(rng, call, max_dim)
-        cplx = rng.random() < 0.45
+        # 2 of 5: cholesky of a positive-definite tree, 2 of 5: plu of a general non-singular tree (with Hermitian and
+        # Hermitian positive-definite dense members among the others), 1 of 5: plu of a positive-definite tree
+        call, pd = [("chol", True), ("plu", False), ("chol", True), ("plu", False), ("plu", True)][i % 5]
+        G = TreeGen(rng, call, max_dim, pd=pd)
+        cplx = rng.random() < (0.6 if (pd and call == "plu") else 0.45)
         depth = rng.choice([0, 1, 1, 2, 2, 3] if not ctx.thorough else [0, 1, 1, 2, 2, 3, 3])
         if depth == 0:
             n = rng.randint(1, 5)
         else:
             n = rng.choice([2, 3, 4, 6, 6, 8, 8, 9, 10, 12, 12, 12, 15, 16, 18, 20, 24, 24] + ([30, 36] if ctx.thorough else []))
-        cases.append({"id": i, "call": call, "op": G.tree(n, depth, cplx)})
+        cases.append({"id": i, "call": call, "op": G.tree(n, depth, cplx), "pd": pd})
     return cases
+
+
+# complex Hermitian positive-definite payloads with non-real off-diagonals, H = L0 L0^H exactly:
+# L0 = [[2, 0], [1-i, 3]];  L0 = [[2, 0, 0], [1-i, 1, 0], [2i, 1+i, 2]]
+H2 = [[4, [2, 2]], [[2, -2], 11]]
+H3 = [[4, [2, 2], [0, -4]], [[2, -2], 3, [-1, -3]], [[0, 4], [-1, 3], 10]]
 
 
 CORPUS = [
@@ -544,6 +709,24 @@ CORPUS = [
     {"call": "plu", "op": ["diag", "f64", [4, -9]]},
     {"call": "plu", "op": ["kron", ["scalar", "f32", -4, 2], ["dense", "f64", 3, 3, [[2, 1, 0], [1, 3, 1], [0, 1, 2]]]]},
     {"call": "plu", "op": ["diag", "c128", [4, -9, [0, 2]]]},
+    # plu AND cholesky of complex Hermitian positive-definite dense operators with non-real off-diagonals, un-annotated /
+    # PSD / SelfAdjoint, alone, in a Kronecker product with a Diagonal, in a BlockDiag with multiplicity 2, under a
+    # PSD-declared composite, single precision
+    {"call": "plu", "pd": True, "op": ["ann", "PSD", ["dense", "c128", 2, 2, H2]]},
+    {"call": "plu", "pd": True, "op": ["ann", "PSD", ["dense", "c128", 3, 3, H3]]},
+    {"call": "plu", "pd": True, "op": ["dense", "c128", 3, 3, H3]},
+    {"call": "plu", "pd": True, "op": ["ann", "SelfAdjoint", ["dense", "c128", 3, 3, H3]]},
+    {"call": "plu", "pd": True, "op": ["kron", ["ann", "PSD", ["dense", "c128", 3, 3, H3]], ["diag", "f64", [4, {"q": [1, 4]}]]]},
+    {"call": "plu", "pd": True, "op": ["bdiag", [["ann", "PSD", ["dense", "c128", 2, 2, H2]], ["eye", "c128", 2]], [2, 1]]},
+    {"call": "plu", "pd": True, "op": ["ann", "PSD", ["kron", ["scalar", "f64", {"q": [9, 4]}, 3], ["ann", "PSD", ["dense", "c64", 2, 2, H2]]]]},
+    {"call": "plu", "pd": True, "op": ["bdiag", [["kron", ["ann", "SelfAdjoint", ["dense", "c128", 2, 2, H2]], ["diag", "c128", [1, 4, 9]]],
+                                                 ["ann", "PSD", ["dense", "c128", 3, 3, H3]]], [1, 2]]},
+    {"call": "chol", "pd": True, "op": ["ann", "PSD", ["dense", "c128", 3, 3, H3]]},
+    {"call": "chol", "pd": True, "op": ["ann", "SelfAdjoint", ["dense", "c64", 2, 2, H2]]},
+    {"call": "chol", "pd": True, "op": ["kron", ["ann", "PSD", ["dense", "c128", 3, 3, H3]], ["diag", "f64", [4, {"q": [1, 4]}]]]},
+    {"call": "chol", "pd": True, "op": ["bdiag", [["ann", "PSD", ["dense", "c128", 2, 2, H2]], ["eye", "c128", 2]], [2, 1]]},
+    {"call": "chol", "pd": True, "op": ["ann", "PSD", ["bdiag", [["kron", ["dense", "c128", 2, 2, H2], ["ann", "SelfAdjoint", ["dense", "c128", 3, 3, H3]]],
+                                                                  ["scalar", "c128", 4, 2]], [2, 3]]]},
 ]
 
 
@@ -558,8 +741,10 @@ def run(ctx):
     stats = collections.Counter()
     hist = {"call": collections.Counter(), "root": collections.Counter(), "leaf_kinds": collections.Counter(),
             "dtype": collections.Counter(), "depth": collections.Counter(), "dim": collections.Counter(),
-            "kron_arity": collections.Counter(), "max_mult": collections.Counter()}
+            "kron_arity": collections.Counter(), "max_mult": collections.Counter(), "herm": collections.Counter(),
+            "pd_call": collections.Counter()}
     distinct, samples = set(), []
+    reported, cover = collections.Counter(), collections.Counter()
 
     if ctx.replay:
         rp = json.load(open(ctx.replay))
@@ -569,7 +754,7 @@ def run(ctx):
     else:
         rng = random.Random(ctx.seed * 104729 + 11)
         cases = [dict(c, id=i) for i, c in enumerate(CORPUS)]
-        n = 700 if not ctx.thorough else 6000
+        n = 875 if not ctx.thorough else 7500
         for c in gen_cases(ctx, rng, n):
             c["id"] = len(cases)
             cases.append(c)
@@ -592,6 +777,16 @@ def run(ctx):
                 if s[0] == "bdiag":
                     hist["max_mult"][max(s[2])] += 1
             hist["depth"][depth_of(e)] += 1
+            if st == "ok":
+                # what the positive-definite / Hermitian part of the stream covered (cases that were fully compared)
+                hist["pd_call"][c["call"] + ("|positive-definite tree" if (c.get("pd") or c["call"] == "chol") else "|general tree")] += 1
+                tags = set(hermitian_leaves(e))
+                for tg in tags:
+                    hist["herm"][c["call"] + "|" + tg] += 1
+                if any(tg.startswith("PSD|hpd|nonreal|") for tg in tags):
+                    cover[c["call"] + "_cases_with_PSD_declared_complex_nonreal_hpd_dense_leaf"] += 1
+                if any("|hpd|nonreal|" in tg for tg in tags):
+                    cover[c["call"] + "_cases_with_complex_nonreal_hpd_dense_leaf"] += 1
             if "rows" in a:
                 hist["dim"][a["rows"]] += 1
             if st in ("ok", "known?") and nontrivial(e):
@@ -601,9 +796,10 @@ def run(ctx):
                                 "real_satisfies": rsd})
             if st == "known?":
                 unknown = [cl for cl in det if cl not in known]
-                if (not det or unknown) and len(ctx.violations) >= MAX_REPORTS:
+                if (not det or unknown) and reported["input"] >= MAX_REPORTS:
                     continue
                 if not det or unknown:
+                    reported["input"] += 1
                     common.violation(ctx, {"case": {"call": c["call"], "op": e}, "model": a.get("code"), "spec": a.get("spec"),
                                            "real": strip_real(real), "clauses": det,
                                            "why": "real = code model, but the result violates the specification and no recorded finding covers it"})
@@ -612,8 +808,9 @@ def run(ctx):
                         common.known_finding(ctx, cl, known[cl])
             elif st == "violation":
                 stats["real-contradicts-spec"] += 1
-                if len(ctx.violations) >= MAX_REPORTS:
+                if reported["input"] >= MAX_REPORTS:
                     continue                                   # further failing inputs are only counted
+                reported["input"] += 1
                 small = shrink(c) if (not ctx.replay and stats["shrunk"] < MAX_SHRINKS) else c
                 stats["shrunk"] += 1
                 (sc, sa, sreal, sst, sdet, srsd) = evaluate([dict(small, id=0)])[0]
@@ -625,10 +822,40 @@ def run(ctx):
                                        "replay_cmd": f"./check {ctx.prop} quick --replay <this file>"})
             elif st == "stale-model":
                 stats["real!=code"] += 1
-                if len(ctx.violations) >= MAX_REPORTS:
-                    continue
-                common.violation(ctx, {"case": {"call": c["call"], "op": e}, "model": a.get("code"), "real": strip_real(real),
-                                       "broken": "correspondence stream of the code model: " + str(det)}, no_input=True)
+                broken = "correspondence stream of the code model: " + str(det)
+                found = None
+                if not ctx.replay and stats["neighbourhood-searches"] < MAX_NEIGH and reported["input"] < MAX_REPORTS:
+                    # the real code meets the specification here but is not what the model describes: look for an input
+                    # nearby on which it contradicts the specification
+                    stats["neighbourhood-searches"] += 1
+                    nb = [dict(x, id=i) for i, x in enumerate(neighbours(c))]
+                    try:
+                        for (nc, na, nreal, nst, ndet, nrsd) in (evaluate(nb) if nb else []):
+                            if nst == "violation":
+                                found = (nc, na, nreal, ndet, nrsd)
+                                break
+                    except Exception as ex:  # noqa: BLE001
+                        ctx.notes.append(f"neighbourhood search failed: {type(ex).__name__}: {str(ex)[:200]}")
+                if found is not None:
+                    (nc, na, nreal, ndet, nrsd) = found
+                    stats["failing-input-from-neighbourhood"] += 1
+                    reported["input"] += 1
+                    common.violation(ctx, {"case": {"call": nc["call"], "op": nc["op"]}, "detail": ndet, "spec_on_real": nrsd,
+                                           "expected_matrix": na.get("den"), "promised_kinds": na.get("promised"),
+                                           "real": strip_real(nreal), "original_case": {"call": c["call"], "op": e},
+                                           "found_by": "neighbourhood search around original_case, where: " + broken,
+                                           "replay_cmd": f"./check {ctx.prop} quick --replay <this file>"})
+                elif reported["no-input"] < MAX_NOINPUT:
+                    reported["no-input"] += 1
+                    common.violation(ctx, {"case": {"call": c["call"], "op": e}, "model": a.get("code"), "real": strip_real(real),
+                                           "broken": broken}, no_input=True)
+            elif st == "spec-mismatch":
+                stats["den!=nominal"] += 1
+                if reported["no-input"] < MAX_NOINPUT:
+                    reported["no-input"] += 1
+                    common.violation(ctx, {"case": {"call": c["call"], "op": e}, "driver_den": a.get("den"),
+                                           "numpy_nominal": build.exact_mat(nominal(e)),
+                                           "broken": "specification oracle: " + str(det)}, no_input=True)
             elif st == "driver-error":
                 ctx.notes.append(f"driver error on case {c.get('id')}: {det}")
                 stats["driver-error-noted"] += 1
@@ -642,9 +869,11 @@ def run(ctx):
     cov = {
         "evaluations": stats["evaluations"],
         "distinct_nontrivial": len(distinct),
-        "rule": "random positive-definite (cholesky) / non-singular (plu) operator trees over Dense, Identity, Diagonal, ScalarMul, "
-                "Kronecker (2-3 factors of pairwise different size), BlockDiag with multiplicities >= 1 (up to 21), PSD/SelfAdjoint/Unitary "
-                "declarations, Product/Sum/Transpose/Triangular nodes (dense fallback), nesting depth <= 3, dimension <= "
+        "rule": "random positive-definite (cholesky, and 1 in 3 plu cases) / non-singular (plu) operator trees over Dense, Identity, "
+                "Diagonal, ScalarMul, Kronecker (2-3 factors of pairwise different size), BlockDiag with multiplicities >= 1 (up to 21), "
+                "true PSD/SelfAdjoint declarations on Hermitian (positive-definite) dense leaves (complex ones with non-real off-diagonals), on "
+                "Product fallback nodes and on positive-definite composites, PSD/SelfAdjoint/Unitary on Identity, "
+                "Product/Sum/Transpose/Triangular nodes (dense fallback), nesting depth <= 3, dimension <= "
                 f"{36 if ctx.thorough else 24}, f32/f64/c64/c128 incl. mixed; distinct = canonical JSON of (call, expression); "
                 "non-trivial = contains a Kronecker or BlockDiag node, or a dense / fallback node of size >= 2",
         "outcomes": dict(stats),
@@ -653,10 +882,22 @@ def run(ctx):
         "dimensions": {str(k): v for k, v in sorted(hist["dim"].items())},
         "kron_arity": {str(k): v for k, v in sorted(hist["kron_arity"].items())},
         "max_multiplicity": {str(k): v for k, v in sorted(hist["max_mult"].items())},
+        "tree_class_by_call": dict(hist["pd_call"]),
+        "hermitian_dense_leaves": {"key": "call|declaration|hpd (positive definite) or herm (indefinite)|nonreal = complex dtype with non-real "
+                                          "off-diagonal entries|position (root, kron, bdiag, bdiag-mult = multiplicity >= 2); counted per case, "
+                                          "cases with outcome ok only",
+                                   **{k: v for k, v in sorted(hist["herm"].items())}},
+        "plu_cases_with_PSD_declared_complex_nonreal_hpd_dense_leaf": cover["plu_cases_with_PSD_declared_complex_nonreal_hpd_dense_leaf"],
+        "chol_cases_with_PSD_declared_complex_nonreal_hpd_dense_leaf": cover["chol_cases_with_PSD_declared_complex_nonreal_hpd_dense_leaf"],
+        "plu_cases_with_complex_nonreal_hpd_dense_leaf": cover["plu_cases_with_complex_nonreal_hpd_dense_leaf"],
+        "chol_cases_with_complex_nonreal_hpd_dense_leaf": cover["chol_cases_with_complex_nonreal_hpd_dense_leaf"],
+        "plu_dense_leaf_cases": dict(OBS),
         "samples": samples,
-        "compare": "kind trees / dtypes / shapes / triangular zeros / permutation entries exactly; factor matrices and products exactly for "
-                   "real-dtype trees without dense leaves, else relative tolerance 1e-9 (double) / 2e-4 (single); dense PLU leaves only "
-                   "through P L U = A, triangularity, permutation (the model's pivot order need not be LAPACK's)",
+        "compare": "kind trees / dtypes / shapes / triangular zeros / permutation entries exactly; the driver's den A = the matrix numpy "
+                   "assembles from the case, exactly; factor matrices and products (against both) exactly for "
+                   "real-dtype trees without dense leaves, else relative tolerance 1e-9 (double) / 2e-4 (single); dense PLU leaves "
+                   "through P L U = A, triangularity, permutation, and L, U against the model's whenever the real permutation equals the "
+                   "model's (unit lower L: unique then; the model's pivot order need not be LAPACK's on ties)",
         "provisional_known": PROVISIONAL_KNOWN,
         "notes": ctx.notes[:5],
     }
